@@ -1473,6 +1473,18 @@ def eval_bind_sources(repo, expr, before_stmt):
 # R02.b (inject), R02.c (layers), R02.d (identity)
 # ---------------------------------------------------------------------------------------------
 
+def _is_varkw_cond(t, pol):
+    """The condition says the callee declares ``**kwargs``: fb.varkw / bool(fb.varkw) / fb.varkw is not None."""
+    if isinstance(t, ast.Call) and call_name(t) == 'bool' and len(t.args) == 1:
+        t = t.args[0]
+    if isinstance(t, ast.Attribute) and t.attr == 'varkw':
+        return pol is True
+    if isinstance(t, ast.Compare) and len(t.ops) == 1 and isinstance(t.left, ast.Attribute) and t.left.attr == 'varkw' and \
+            isinstance(t.comparators[0], ast.Constant) and t.comparators[0].value is None:
+        return (isinstance(t.ops[0], (ast.IsNot, ast.NotEq)) and pol is True) or (isinstance(t.ops[0], (ast.Is, ast.Eq)) and pol is False)
+    return False
+
+
 def check_inject(rep, r_decl, r_layers):
     repo = rep.repo
     sinter = repo.mod(SINTER)
@@ -1481,47 +1493,73 @@ def check_inject(rep, r_decl, r_layers):
     calls = [c for c in walk_body(fi.node) if isinstance(c, ast.Call) and norm(c.func) == ps[0]]
     if not calls:
         raise AnalysisError('inject: call of the injected function not found')
+
+    def all_names(e):
+        """``e`` evaluates to every declared parameter name of the callee: fb.get_arg_names(), maybe under a local name."""
+        e = _deref(fi, e)
+        while isinstance(e, ast.Call) and call_name(e) in ('set', 'frozenset', 'list', 'tuple') and len(e.args) == 1:
+            e = _deref(fi, e.args[0])
+        return isinstance(e, ast.Call) and call_tail(e) == 'get_arg_names' and isinstance(e.func, ast.Attribute) and not e.args and not e.keywords
+
+    def key_test(t, pol, keyvar):
+        return pol is True and isinstance(t, ast.Compare) and len(t.ops) == 1 and isinstance(t.ops[0], ast.In) and \
+            norm(t.left) == keyvar and all_names(t.comparators[0])
+
+    def filtered_dict(name):
+        """Every way ``name`` gets an entry admits declared names only."""
+        defs = [s_ for s_ in stmts_of(fi.node) if isinstance(s_, ast.Assign) and any(norm(t) == name for t in s_.targets)]
+        stores = [s_ for s_ in stmts_of(fi.node) if isinstance(s_, ast.Assign) and any(isinstance(t, ast.Subscript) and norm(t.value) == name
+                                                                                        for t in s_.targets)]
+        muts = [c for c in walk_body(fi.node) if isinstance(c, ast.Call) and isinstance(c.func, ast.Attribute) and norm(c.func.value) == name
+                and c.func.attr in ('update', 'setdefault')]
+        if len(defs) != 1 or muts:
+            return False
+        v = defs[0].value
+        if isinstance(v, ast.DictComp) and len(v.generators) == 1 and not stores:
+            g = v.generators[0]
+            keyvar = norm(g.target.elts[0]) if isinstance(g.target, ast.Tuple) and g.target.elts else norm(g.target)
+            return norm(v.key) == keyvar and any(key_test(*_strip_not(i), keyvar) for i in g.ifs)
+        empty = (isinstance(v, ast.Dict) and not v.keys) or (isinstance(v, ast.Call) and call_name(v) == 'dict' and not v.args and not v.keywords)
+        if empty and stores:
+            for s_ in stores:
+                t = [t for t in s_.targets if isinstance(t, ast.Subscript)][0]
+                if not any(key_test(ct, cp, norm(t.slice)) for ct, cp in conds(fi, s_)):
+                    return False
+            return True
+        return False
     for c in calls:
         star = [k.value for k in c.keywords if k.arg is None]
         ok = not c.args and len(star) == 1 and len(c.keywords) == 1
         filtered = False
+        how = ''
         if ok:
             name = norm(star[0])
             cs = conds(fi, c)
-            if has_cond(cs, lambda t: norm(t).endswith('.varkw'), True):
+            if any(_is_varkw_cond(t, p) for t, p in cs):
                 filtered = True
                 how = 'the callee takes **kwargs (everything may be passed)'
-            else:
-                defs = [s for s in stmts_of(fi.node) if isinstance(s, ast.Assign) and norm(s.targets[0]) == name]
-                for d in defs:
-                    for n in ast.walk(d.value):
-                        if isinstance(n, (ast.ListComp, ast.DictComp, ast.GeneratorExp)):
-                            for g in n.generators:
-                                for i in g.ifs:
-                                    cmp_ = _deref(fi, i.comparators[0]) if isinstance(i, ast.Compare) else None
-                                    while isinstance(cmp_, ast.Call) and call_name(cmp_) in ('set', 'frozenset', 'list', 'tuple') and len(cmp_.args) == 1:
-                                        cmp_ = _deref(fi, cmp_.args[0])
-                                    if isinstance(i, ast.Compare) and isinstance(i.ops[0], ast.In) and \
-                                            isinstance(cmp_, ast.Call) and call_tail(cmp_) == 'get_arg_names' \
-                                            and not cmp_.args and not cmp_.keywords:
-                                        filtered = True
-                                        how = 'only names in fb.get_arg_names() are passed'
+            elif filtered_dict(name):
+                filtered = True
+                how = 'only names in fb.get_arg_names() are passed'
         rep.check(r_decl, fkey(fi, c), ok and filtered,
                   'outermost call passes keywords only; ' + how if ok and filtered else
                   'inject may pass a name the function does not declare (no get_arg_names() filter and no **kwargs guard): %s' % short(c),
                   sinter, c)
-    # layers: defaults strictly below injectables
-    cand = [norm(k.value) for c in calls for k in c.keywords if k.arg is None]
+    # layers: defaults strictly below injectables -- the dict that starts from the signature defaults
     lay = None
-    for v in set(cand):
-        ls = layers_of_var(fi.node, v)
-        if len(ls) >= 2:
+    names = set()
+    for st in stmts_of(fi.node):
+        if isinstance(st, ast.Assign):
+            for t in st.targets:
+                if isinstance(t, ast.Name):
+                    names.add(t.id)
+    for v in sorted(names):
+        try:
+            ls = layers_of_var(fi.node, v)
+        except AnalysisError:
+            continue
+        if any('get_defaults_dict' in l.text for l in ls):
             lay = (v, ls)
-    if lay is None:
-        # filtered dict derives from all_kwargs
-        for st in stmts_of(fi.node):
-            if isinstance(st, ast.Assign) and isinstance(st.value, ast.Call) and call_tail(st.value) == 'get_defaults_dict':
-                lay = (norm(st.targets[0]), layers_of_var(fi.node, norm(st.targets[0])))
     if lay is None:
         raise AnalysisError('inject: layered kwargs dict not found')
     v, ls = lay
@@ -1532,6 +1570,22 @@ def check_inject(rep, r_decl, r_layers):
               "a parameter's own default is the lowest layer: %s" % [l.text for l in ls] if ok else
               'defaults are not strictly below the injectables (a default would override an offered value): %s' % [l.text for l in ls],
               sinter, fi.node)
+    # what is filtered / passed on is that layered dict
+    used = set()
+    for c in calls:
+        for k in c.keywords:
+            if k.arg is None:
+                n = norm(k.value)
+                used.add(n)
+                for s_ in stmts_of(fi.node):
+                    if isinstance(s_, ast.Assign) and any(norm(t) == n for t in s_.targets):
+                        used |= set(x.id for x in ast.walk(s_.value) if isinstance(x, ast.Name))
+                    if isinstance(s_, ast.For) and any(isinstance(q, ast.Assign) and any(isinstance(t, ast.Subscript) and norm(t.value) == n
+                                                                                         for t in q.targets) for q in ast.walk(s_)):
+                        used |= set(x.id for x in ast.walk(s_.iter) if isinstance(x, ast.Name))
+    ok = v in used
+    rep.check(r_layers, fkey(fi, 'layered dict is what is passed'), ok, 'the call arguments derive from %s' % v if ok else
+              'the dict layered as defaults < injectables (%s) is not what the call passes' % v, sinter, fi.node)
 
 
 def check_request_layers(rep, rule, rule_identity=None):
